@@ -7,6 +7,7 @@ exec > $LOG 2>&1
 git -C /repo worktree remove --force $WT 2>/dev/null; git -C /repo worktree add --detach $WT HEAD -q || exit 9
 cd $WT
 tdir=$(head -5 $D/demo_test.go | grep -o 'internal/[a-zA-Z0-9_/]*' | head -1)
+case "$tdir" in *_test) tdir=$(dirname $tdir);; esac
 [ -z "$tdir" ] && tdir=internal/server
 tname=$(grep -o 'func Test[A-Za-z0-9_]*' $D/demo_test.go | head -1 | sed 's/func //')
 cp $D/demo_test.go $tdir/zz_demo_seed_test.go
